@@ -285,6 +285,31 @@ def run(ctx):
                     r3.violate("C19|R3|%s|%s" % (n, kind), "%s formats a value with {:%s} instead of Display: the text is no longer what the readers' number grammar accepts" % (n, "?" if kind == "debug" else kind), t["span"]["file"], t["span"]["line"], n)
     if nw == 0:
         r3.violate("C19|R3|anchor-missing", "no formatting call found in the JSON writers (anchor missing)")
+    # R4: the readers end a string at the next quotation mark and do not undo escapes, so the writers must emit string values verbatim
+    r4 = chk.rule("R4-writer-emits-strings-verbatim", "no JSON writer produces an escape sequence (a constant containing a backslash, str::replace / escape_* on a value): the readers do not unescape, so escaped text would not read back", floor=3)
+    from ..inline import is_private_helper
+    for n in sorted(wseen):
+        fn = F.fns.get(n)
+        if fn is None or fn.crate != "rws" or fn.kind == "Promoted":
+            continue
+        du_ = du_of(fn)
+        bad = []
+        for b in fn.blocks:
+            if b.get("cleanup"):
+                continue
+            ops = [o for st in b["stmts"] if st["k"] == "assign" for o in st["rv"].get("ops", [])]
+            t = b["term"]
+            if t["k"] == "call":
+                ops += t["args"]
+                c = callee_name(t) or ""
+                if _re.search(r"impl str>::(replace|replacen|escape_default|escape_debug|escape_unicode)$|char>::escape_", c):
+                    bad.append((c.split("::")[-1], t["span"]["line"]))
+            for o in ops:
+                if o.get("k") == "const" and isinstance(o.get("v"), str) and "\\" in o["v"]:
+                    bad.append(("constant %r" % o["v"], (t.get("span") or {}).get("line", fn.span["line"])))
+        r4.instance({"fn": n, "escape_producing_constructs": [x[0] for x in bad]}, not bad)
+        if bad:
+            r4.violate("C19|R4|%s" % n, "%s produces escaped text (%s): the readers take a string up to the next quotation mark and never unescape, so such a value does not read back" % (n, ", ".join(sorted({x[0] for x in bad}))), fn.file, bad[0][1], n)
     chk.assumptions += ["the writer emits integers and finite floats through Display (first character a digit or '-'), strings in double quotes, true / false / null literally",
                         "kind flags computed from the dispatch character before any inner loop are fixed by the first-character class; flags computed after an inner loop may see another character and are treated as unknown"]
     chk.undecided = ["digits of floats / exponents, string content and escaping, nesting depth, equality of values after the round trip"]
